@@ -478,8 +478,9 @@ class VirtualFileSystem(FileSystem[str]):
             # normpath() turns the empty (root) folder into '.', which only dot-files start with.
             folder = ''
 
-        for filename, data in self._mapping.values():
-            if filename.startswith(folder):
+        # Compare the normalised keys, the folder has been normalised too.
+        for key, (filename, data) in self._mapping.items():
+            if key.startswith(folder):
                 yield File(self, filename, filename)
 
     def _file_exists(self, name: str) -> bool:
